@@ -31,7 +31,7 @@ Modelling decisions (each one mirrors the Go runtime, see notes/C12.md):
     non-directory sits at the path of `d` (`os.MkdirAll` returns an error).  Both are set by the
     environment actions `Act.corrupt` / `Act.block` at any time (a database file is only overwritten
     while no handle is open on it); `os.RemoveAll` of a deletion removes a bad file with its
-    directory.  A failed load returns through loadShard's deferred `shardLock.Unlock()` (pc
+    directory, and `Act.repair` makes the failure transient (the file becomes openable again).  A failed load returns through loadShard's deferred `shardLock.Unlock()` (pc
     `rqLoadErr`, parked at the deferred yield point `load.unlockStore`) and DoWithShard returns the
     error without touching `ls.mu`.
   * `Variant.pinned` is the lock order of the pinned tree (cleanupRoutine keeps ls.mu, by `defer`,
@@ -146,6 +146,9 @@ inductive Act
   | corrupt (d : Dir)
   /-- environment: a regular file appears at the path of the (not yet existing) directory `d` -/
   | block (d : Dir)
+  /-- environment: the unopenable database file of `d` goes away (a torn transfer is completed /
+  the garbage is removed): the failure was transient, the next load must succeed -/
+  | repair (d : Dir)
   deriving DecidableEq, Repr
 
 def upd {β : Type} (f : Dir → β) (d : Dir) (b : β) : Dir → β := fun x => if x = d then b else f x
@@ -349,6 +352,8 @@ def step (v : Variant) (s : St) : Act → Option St
       else none
   | .block d =>
       if d ∈ s.dirs then none else some { s with blocked := upd s.blocked d true }
+  | .repair d =>
+      if s.bad d = true then some { s with bad := upd s.bad d false } else none
 
 inductive Reachable (v : Variant) : St → Prop
   | init (dirs : List Dir) : Reachable v (St.init dirs)
